@@ -18,6 +18,8 @@ Shapes == {
   <<"emits", Obj(<< <<"emits", UE>> >>)>>, <<"emits_quoted", Obj(<< <<"emits", UE>> >>)>>,
   <<"name", Obj(<< <<"name", UN>> >>)>>, <<"name_quoted", Obj(<< <<"name", UN>> >>)>>,
   <<"all", Obj(<< <<"name", UN>>, <<"props", UP>>, <<"emits", UE>> >>)>>,
+  <<"name_shorthand", Obj(<< <<"name", UN>> >>)>>, <<"props_shorthand", Obj(<< <<"props", UP>> >>)>>, <<"emits_shorthand", Obj(<< <<"emits", UE>> >>)>>,
+  <<"all_shorthand", Obj(<< <<"emits", UE>>, <<"name", UN>>, <<"props", UP>> >>)>>,        \* { emits, name, props } with those variables in scope
   <<"inheritAttrs", Obj(<< <<"inheritAttrs", Bool(FALSE)>> >>)>>,
   <<"spread_only", Obj(<< <<"props", UP>>, <<"name", UN>> >>)>>,          \* { ...o }            o = { props: ['u'], name: 'N' }
   <<"spread_then_emits", Obj(<< <<"props", UP>>, <<"name", UN>>, <<"emits", UE>> >>)>>,   \* { ...o, emits: ['x'] }
